@@ -56,6 +56,12 @@ def lru_stems_from_parsed_url(parsed_url, suffix_aware=True):
 
         else:
             domain, suffix = split_result
+
+            # NOTE: the root label of a fully qualified hostname is kept, as
+            # it is when the hostname is split label by label
+            if netloc[0].endswith("."):
+                lru.append("h:")
+
             lru.append("h:" + suffix)
 
             if domain:
